@@ -410,7 +410,14 @@ class NameConverter(ast.NodeTransformer):
             return self.generic_visit(node)
 
         if any(isinstance(arg, ast.Starred) for arg in node.args):
-            return self.generic_visit(node)
+            new_node = self.generic_visit(node)
+            if (
+                self.analysis.is_method
+                and node.func.id in self.recurse_syms
+            ):
+                # The dispatch function is not bound: pass self along
+                new_node.args.insert(0, ast.Name(id="self", ctx=ast.Load()))
+            return new_node
 
         cn = node.func.id == self.call_next_sym
         tmp = f"__TMP{next(self.count)}_"
